@@ -78,6 +78,7 @@ MENU = {
   "complist": ("s.{n} = [ Leaf() for _ in range(2) ]", ["s.{n}[1].y.a[0]"]),
   "complist2": ("s.{n} = [ [ Leaf() for _ in range(2) ] for _ in range(2) ]", ["s.{n}[1][0].i.b.a[1]", "s.{n}[0][1].y.l[0]"]),
   "method": ("s.{n} = CallerPort()", []),
+  "ifcinv": ("s.{n} = Ifc().inverse()", ["s.{n}.a[2]", "s.{n}.b.a[0]", "s.{n}.v[1]"]),
   # plain Python bookkeeping: a second reference to objects that already have their place (an alias and a list of aliases)
   "alias": ("s.{n} = [ Leaf() for _ in range(2) ]; s.{n}_ys = [ c.y for c in s.{n} ]; s.{n}_first = s.{n}[0].i", ["s.{n}[1].y.a[0]", "s.{n}[0].i.a[1]"]),
   # a list that grows after it has been assigned
@@ -86,7 +87,7 @@ MENU = {
   "midlist": ("s.{n} = [ Mid() for _ in range(2) ]", ["s.{n}[1].o[1]"]),
 }
 MID_MENU = ["bits", "slal", "npc", "siglist", "ifc", "ifclist", "comp", "complist", "complist2", "sls"]
-TOP_MENU = ["bits", "sab", "slal", "npc", "siglist2", "ifc", "ifclist", "comp", "complist2", "method", "mid", "midlist", "sls", "alias", "growlist"]
+TOP_MENU = ["bits", "sab", "slal", "npc", "siglist2", "ifc", "ifclist", "comp", "complist2", "method", "mid", "midlist", "sls", "alias", "growlist", "ifcinv"]
 
 
 def comp_src(cls, members, extra_sigs=""):
